@@ -102,6 +102,18 @@ class Matcher:
                 out.append(n)
         return out
 
+    def collects(self, fn, iter_spec, nested=False):
+        """places where every element of ``iter_spec`` is turned into an element of a new list: a loop whose body appends, or a list
+        comprehension over it (the two spellings of the same collection)"""
+        out = []
+        for n in self.nodes(fn, nested):
+            if isinstance(n, ast.For) and self.eq(T.norm(n.iter), iter_spec, fn=fn) and any(
+                    isinstance(c, ast.Call) and isinstance(c.func, ast.Attribute) and c.func.attr == 'append' for c in ast.walk(n)):
+                out.append(n)
+            if isinstance(n, ast.ListComp) and len(n.generators) == 1 and not n.generators[0].ifs and self.eq(T.norm(n.generators[0].iter), iter_spec, fn=fn):
+                out.append(n)
+        return out
+
     def calls(self, fn, spec_src, nested=False):
         out = []
         for n in self.nodes(fn, nested):
